@@ -265,9 +265,9 @@ def c16(g, tier):
             yield build_session(f"C16/fbkind/{kind}/{f}", kind, [{"c": "new", "fci": g.fci(f), "owned": g.r.random() < 0.5}], rt=False)
     # total size above 65536 words
     for nbytes in (262140 - 12, 262144 - 12, 262148 - 12):
-        yield build_session(f"C16/big/app/{nbytes}", "app", [{"c": "new", "ssrc": [0, 1], "name": [65]}, {"c": "data", "v": {"rep": 7, "n": nbytes}}], rt=False)
+        yield build_session(f"C16/big/app/{nbytes}", "app", [{"c": "new", "ssrc": [0, 1], "name": [65]}, {"c": "data", "v": [], "big": {"rep": 7, "n": nbytes}}], rt=False)
     for nbytes in (262140 - 4, 262144 - 4, 262148 - 4):
-        yield build_session(f"C16/big/unk/{nbytes}", "unk", [{"c": "new", "type": 77, "data": {"rep": 7, "n": nbytes}}], rt=False)
+        yield build_session(f"C16/big/unk/{nbytes}", "unk", [{"c": "new", "type": 77, "data": [], "big": {"rep": 7, "n": nbytes}}], rt=False)
 
 
 def c20(g, tier):
